@@ -1,0 +1,242 @@
+//go:build verif
+
+package transport
+
+// Contracts for the deductive verifier in /verif (comment-only file, build tag verif).
+
+// C18, routing on one upstream connection: the table id -> handler is read and written only under subsMu; a message
+// is handed to the handler registered under the message's id and to nobody when there is none; complete/error end
+// that id and only that id; handlers are called without holding the lock.
+//@ decl guarded wsConnection.subs by subsMu
+//@ decl monotone wsConnection.closed
+//@ decl stable wsConnection.onEmpty by newWSConnection
+//@ decl stable wsConnection.idleTimeout by newWSConnection
+//@ decl stable wsConnection.protocol by newWSConnection
+//@ decl stable wsConnection.conn by newWSConnection
+
+//@ func wsConnection.closeConn
+//@   requires c != nil && !held(c.subsMu) && !rheld(c.subsMu)
+//@   ensures !held(c.subsMu) && !rheld(c.subsMu)
+//@   modifies *, count(*)
+//@ func wsConnection.shutdown
+//@   requires c != nil && !held(c.subsMu) && !rheld(c.subsMu)
+//@   at call dynamic:handler: assert {handlers.are.called.without.the.routing.lock} !held(c.subsMu)
+//@   at call dynamic:onEmpty: assert {the.pool.callback.runs.without.the.routing.lock} !held(c.subsMu)
+//@   ensures !held(c.subsMu) && !rheld(c.subsMu)
+//@   modifies *, count(*)
+//@   loop 0:
+//@     invariant !held(c.subsMu) && !rheld(c.subsMu)
+
+//@ func wsConnection.removeSub
+//@   requires c != nil && !held(c.subsMu) && !rheld(c.subsMu)
+//@   at call wsConnection.closeConn: assert {an.idle.connection.is.closed.only.when.no.subscription.is.left} isEmpty && !held(c.subsMu)
+//@   ensures !held(c.subsMu) && !rheld(c.subsMu)
+//@   modifies *, count(*)
+// the idle timer re-checks under the lock before closing
+//@ func wsConnection.removeSub$1
+//@   assumes {timer.goroutine.holds.no.lock} c != nil && !held(c.subsMu) && !rheld(c.subsMu)
+//@   at call wsConnection.closeConn: assert {the.idle.timer.closes.only.a.connection.that.is.still.empty} stillEmpty && !held(c.subsMu) && !rheld(c.subsMu)
+//@   modifies *, count(*)
+
+//@ func wsConnection.dispatch
+//@   requires c != nil && msg != nil && !held(c.subsMu) && !rheld(c.subsMu)
+//@   at call RWMutex.RUnlock: assert {the.handler.is.looked.up.under.the.id.of.the.message} local(exists) == has(c.subs, msg.ID)
+//@   at call dynamic:handler: assert {a.message.goes.to.a.registered.handler.called.without.the.lock} local(exists) && !held(c.subsMu)
+//@   at call wsConnection.removeSub: assert {complete.and.error.end.exactly.that.subscription} arg1 == msg.ID && (msg.Type == protocol.MessageComplete || msg.Type == protocol.MessageError)
+//@   ensures !held(c.subsMu) && !rheld(c.subsMu)
+//@   modifies *, count(*)
+
+// one read loop per connection hands every data/error/complete message to dispatch, once, in the order read
+//@ func wsConnection.readLoop
+//@   assumes {the.read.loop.goroutine.holds.no.lock} c != nil && !held(c.subsMu) && !rheld(c.subsMu)
+//@   ghost var g_last *protocol.WireMessage = nil
+//@   ghost var g_fresh bool = false
+//@   at call Protocol.Read: ghost g_last = result0
+//@   at call Protocol.Read: ghost g_fresh = result1 == nil
+//@   at call wsConnection.dispatch: assert {each.message.read.is.dispatched.once.in.read.order} g_fresh && arg1 == g_last && arg0 == c
+//@   at call wsConnection.dispatch: ghost g_fresh = false
+//@   modifies *, count(*)
+//@   loop 0:
+//@     invariant !held(c.subsMu) && !rheld(c.subsMu)
+
+//@ func wsConnection.unsubscribe
+//@   requires c != nil && !held(c.subsMu) && !rheld(c.subsMu)
+//@   at call Protocol.Unsubscribe: assert {the.stop.message.names.this.subscription} arg3 == id && local(exists) && !held(c.subsMu)
+//@   at call wsConnection.removeSub: assert {unsubscribe.ends.exactly.this.subscription} arg1 == id && arg0 == c
+//@   ensures !held(c.subsMu) && !rheld(c.subsMu)
+//@   modifies *, count(*)
+
+//@ func wsConnection.subscribe
+//@   requires c != nil && !held(c.subsMu) && !rheld(c.subsMu)
+//@   assumes {package.level.error.values.are.initialised} ErrSubscriptionExists != nil
+//@   ghost var g_registered bool = false
+//@   ghost var g_removed bool = false
+//@   at call Protocol.Subscribe: assert {subscribe.message.is.written.without.the.lock.after.registration} !held(c.subsMu) && arg3 == id
+//@   at call wsConnection.removeSub: assert {a.failed.subscribe.unregisters.its.own.id} arg1 == id
+//@   at call wsConnection.removeSub: ghost g_removed = true
+//@   at call Protocol.Subscribe: ghost g_registered = true
+//@   ensures {a.failed.subscribe.leaves.no.routing.entry} g_registered && result1 != nil ==> g_removed
+//@   ghost var g_closed bool = false
+//@   at call Bool.Load: ghost g_closed = result
+//@   ensures {a.successful.subscribe.keeps.its.entry} result1 == nil && !g_closed ==> g_registered && !g_removed
+//@   ensures {nothing.is.registered.on.a.closed.connection} g_closed ==> !g_registered
+//@   ensures !held(c.subsMu) && !rheld(c.subsMu)
+//@   modifies *, count(*)
+//@   safety no-nilmap
+
+// ----------------------------------------------------------------------------------------------
+// C18, sharing of upstream connections: the pool and the table of dials in progress are read and written only under
+// WSTransport.mu; the key covers endpoint, subprotocol, headers and init payload; a connection enters the pool only
+// after dial and protocol init succeeded; the dial slot is always released and its result is published before done
+// is closed; a waiter is not failed by the cancellation of the subscriber that happened to start the dial.
+//@ decl guarded WSTransport.conns by mu
+//@ decl guarded WSTransport.dialing by mu
+//@ decl lockinv WSTransport.mu: forall k :: has(self.conns, k) ==> self.conns[k] != nil
+// the result of a coalesced dial is published by closing done: success carries a connection, and a failure that
+// happened after the dialing subscriber went away is marked aborted (rely/guarantee over the close of done)
+//@ decl chaninv dialResult.done: (self.err == nil ==> self.conn != nil)
+//@ decl stable dialResult.conn by WSTransport.getOrDial
+//@ decl stable dialResult.err by WSTransport.getOrDial
+//@ decl stable dialResult.aborted by WSTransport.getOrDial
+//@ spec kmix(h int, x int) int
+
+//@ func connKey
+//@   ghost var g_h int = 0
+//@   ghost var g_sum int = 0
+//@   ghost var g_res int = 0
+//@   ghost var g_payload int = 0
+//@   ghost var g_marshalled bool = false
+//@   at call Digest.WriteString: ghost g_h = kmix(g_h, arg1)
+//@   at call Header.Write: ghost g_h = kmix(g_h, arg0)
+//@   at call json.Marshal: assert {the.init.payload.is.what.gets.hashed} payload(arg0) == opts.InitPayload
+//@   at call json.Marshal: ghost g_payload = arr(result0)
+//@   at call json.Marshal: ghost g_marshalled = true
+//@   at call Digest.Write: assert {the.marshalled.init.payload.is.hashed} g_marshalled && arr(arg1) == g_payload
+//@   at call Digest.Write: ghost g_h = kmix(g_h, opts.InitPayload)
+//@   at call Digest.Sum64: ghost g_sum = g_h
+//@   at call Digest.Sum64: ghost g_res = result
+//@   let sep = kmix(kmix(kmix(kmix(0, opts.Endpoint), "\x00"), string(opts.WSSubprotocol)), "\x00")
+//@   ensures {key.is.the.digest.after.these.writes} result == g_res
+//@   ensures {key.covers.endpoint.and.subprotocol.first} len(opts.Headers) == 0 && len(opts.InitPayload) == 0 ==> g_sum == kmix(sep, "\x00")
+//@   ensures {key.covers.headers} len(opts.Headers) > 0 && len(opts.InitPayload) == 0 ==> g_sum == kmix(kmix(sep, opts.Headers), "\x00")
+//@   modifies *
+//@   safety none
+
+//@ func WSTransport.Subscribe
+//@   requires t != nil && !held(t.mu) && noneheld(wsConnection.subsMu)
+//@   ghost var g_conn *wsConnection = nil
+//@   at call WSTransport.getOrDial: assert {the.connection.is.chosen.by.these.options} arg0 == t && arg2 == opts
+//@   at call WSTransport.getOrDial: ghost g_conn = result0
+//@   at call wsConnection.subscribe: assert {the.subscription.is.registered.on.the.connection.for.its.own.options} arg0 == g_conn && arg4 == handler && arg3 == req
+//@   ensures !held(t.mu)
+//@   modifies *, count(*)
+
+//@ func WSTransport.negotiateSubprotocol
+//@   ensures {a.connection.speaks.the.requested.subprotocol.or.a.known.one.in.auto.mode} result1 == nil ==> (requested == common.SubprotocolAuto || accepted == requested) && (accepted == common.SubprotocolGraphQLTransportWS || accepted == common.SubprotocolGraphQLWS) && result0 != nil
+//@   modifies *
+
+//@ func WSTransport.removeConn
+//@   requires t != nil && !held(t.mu)
+//@   ensures !held(t.mu)
+//@   modifies *
+
+//@ func newWSConnection
+//@   ensures {a.fresh.open.connection} result != nil && fresh(result)
+//@   modifies *
+//@ func WSTransport.dial
+//@   requires t != nil && !held(t.mu)
+//@   ghost var g_init bool = false
+//@   at call Protocol.Init: assert {the.init.payload.of.these.options.is.sent} arg3 == opts.InitPayload
+//@   at call Protocol.Init: ghost g_init = true
+//@   at call newWSConnection: assert {a.connection.object.exists.only.after.a.successful.handshake} g_init
+//@   ensures {a.connection.is.returned.only.after.dial.and.protocol.init.succeeded} result0 != nil ==> g_init && result1 == nil
+//@   ensures {success.means.a.connection} result1 == nil ==> result0 != nil
+//@   ensures !held(t.mu)
+//@   modifies *, count(*)
+//@   safety lockbalance-off
+
+//@ func WSTransport.getOrDial
+//@   requires t != nil && !held(t.mu) && noneheld(wsConnection.subsMu)
+//@   ghost var g_key int = 0
+//@   ghost var g_dialer bool = false
+//@   ghost var g_dialErr bool = false
+//@   ghost var g_waited bool = false
+//@   ghost var g_res *dialResult = nil
+//@   ghost var g_ownAlive bool = true
+//@   ghost var g_retried bool = false
+//@   at call connKey: assert {the.key.of.these.options} arg0.Endpoint == opts.Endpoint && arg0.WSSubprotocol == opts.WSSubprotocol && arg0.Headers == opts.Headers && arg0.InitPayload == opts.InitPayload
+//@   at call connKey: ghost g_key = result
+//@   at call WSTransport.dial: assert {one.dialer.per.key.dials.without.the.pool.lock} !held(t.mu) && arg2 == g_key
+//@   at call WSTransport.dial: ghost g_dialer = true
+//@   at call WSTransport.dial: ghost g_dialErr = result1 != nil
+//@   at call close: assert {the.dial.result.is.published.before.done.is.closed} g_dialer && local(result).conn == conn && local(result).err == err
+//@   at call close: assert {a.dial.that.failed.after.its.own.subscriber.went.away.is.marked.aborted} local(result).aborted == (err != nil && !g_ownAlive)
+//@   at call close: assert {the.dial.slot.is.released.before.the.waiters.wake.so.a.retry.cannot.find.it.again} !has(t.dialing, g_key)
+//@   at call $wait: ghost g_waited = true
+//@   at call $wait: ghost g_res = local(result)
+//@   at call Context.Err: ghost g_ownAlive = result == nil
+//@   at call WSTransport.getOrDial: assert {a.waiter.only.dials.again.when.the.dial.was.aborted.and.it.is.itself.alive} g_waited && g_res.aborted && g_ownAlive && arg0 == t && arg2 == opts
+//@   at call WSTransport.getOrDial: ghost g_retried = true
+//@   ensures {the.dial.slot.is.always.released} g_dialer ==> !has(t.dialing, g_key)
+//@   ensures {success.means.a.connection} result1 == nil ==> result0 != nil
+//@   ensures noneheld(wsConnection.subsMu)
+//@   ensures {only.a.fully.established.connection.enters.the.pool} g_dialer && g_dialErr ==> result0 == nil || result1 != nil
+//@   ensures {a.waiter.is.not.failed.by.the.cancellation.of.the.subscriber.that.started.the.dial} g_waited && !g_retried && result1 != nil && g_res.aborted ==> !g_ownAlive
+//@   ensures !held(t.mu)
+//@   modifies *, count(*)
+//@   safety lockbalance-off
+//@   safety no-nilmap
+
+// ----------------------------------------------------------------------------------------------
+// C18, SSE: one HTTP response per subscription (no multiplexing). The subscriber's handler is bound to its own
+// response; the read loop hands every event to that handler, once, in stream order, and nothing after a terminal
+// message; a Subscribe that fails after the request context was derived cancels it; the table of live connections
+// is read and written only under SSETransport.mu.
+//@ decl guarded SSETransport.conns by mu
+//@ decl stable sseConnection.handler by newSSEConnection
+//@ decl stable sseConnection.onClose by newSSEConnection
+//@ decl stable sseConnection.resp by newSSEConnection
+
+//@ func newSSEConnection
+//@   ensures {the.connection.delivers.to.the.handler.it.was.created.for} result != nil && fresh(result) && result.handler == handler && result.resp == resp
+//@   modifies *
+
+//@ func sseConnection.parseEvent
+//@   ensures {every.event.becomes.one.fresh.message} result != nil && fresh(result)
+//@   ensures {complete.and.error.events.are.terminal.for.this.stream} (eventType == "complete" ==> result.Type == common.MessageTypeComplete) && (eventType == "error" ==> result.Type == common.MessageTypeError)
+//@   modifies *
+
+//@ func sseConnection.readLoop
+//@   assumes {the.read.loop.goroutine.owns.its.connection} c != nil
+//@   ghost var g_terminal bool = false
+//@   ghost var g_msg *common.Message = nil
+//@   ghost var g_pending bool = false
+//@   at call sseConnection.parseEvent: ghost g_msg = result
+//@   at call sseConnection.parseEvent: ghost g_pending = true
+//@   at call dynamic:handler: assert {each.event.is.delivered.once.in.stream.order.and.nothing.after.a.terminal.message} !g_terminal && g_pending && arg0 == g_msg
+//@   at call dynamic:handler: ghost g_pending = false
+//@   at call sseConnection.sendError: assert {a.read.error.is.reported.only.while.the.stream.is.live} !g_terminal
+//@   at call MessageType.IsTerminal: assert {the.terminal.test.is.made.on.the.delivered.message} arg0 == g_msg.Type
+//@   at call MessageType.IsTerminal: ghost g_terminal = result
+//@   modifies *, count(*)
+//@   loop 0:
+//@     invariant !g_terminal
+
+//@ func SSETransport.removeConn
+//@   requires t != nil && !held(t.mu)
+//@   ensures !held(t.mu)
+//@   modifies *
+
+//@ func SSETransport.Subscribe
+//@   requires t != nil && !held(t.mu)
+//@   ghost var g_derived bool = false
+//@   ghost var g_cancelled bool = false
+//@   at call context.WithCancel: ghost g_derived = true
+//@   at call dynamic:requestCancel: ghost g_cancelled = true
+//@   at call newSSEConnection: assert {the.handler.of.this.subscription.is.bound.to.its.own.response} arg1 == handler && arg0 == resp && !g_cancelled
+//@   ensures {a.failed.subscribe.cancels.its.request} g_derived && result1 != nil ==> g_cancelled
+//@   ensures {a.successful.subscribe.leaves.its.request.running} result1 == nil ==> g_derived && !g_cancelled
+//@   ensures {a.successful.subscribe.returns.its.cancel.function} result1 == nil ==> result0 != nil
+//@   ensures !held(t.mu)
+//@   modifies *, count(*)
+//@   safety no-nilmap
